@@ -48,14 +48,4 @@ MUTANTS = [
      "edits": [{"file": "piquasso/_simulators/gaussian/state.py",
                 "old": "            z = np.exp(1j * np_angles)\n",
                 "new": "            z = np.exp(-1j * np_angles)\n"}]},
-    {"name": "jax-scatter-index-columns-reversed",
-     "expect": "purefock-tensor_representation-differs:jax",
-     "edits": [{"file": JX,
-                "old": "        composite_index = tuple([indices_array[:, i] for i in range(len(shape))])\n",
-                "new": "        composite_index = tuple([indices_array[:, -1 - i] for i in range(len(shape))])\n"}]},
-    {"name": "jax-loop-hafnian-loop-term-drops-x-delta",
-     "expect": "gaussian-fock_probabilities-differs:jax (displaced states)",
-     "edits": [{"file": "piquasso/_math/jax/hafnian.py",
-                "old": "    left = v @ X_delta @ O\n",
-                "new": "    left = v @ O\n"}]},
 ]
